@@ -83,6 +83,7 @@ Hi(x, v) == IF x = HeadLoc THEN v.version ELSE 0
 
 L0 == [opi |-> 1, held |-> <<>>, cur |-> NONE, nh |-> 0, idv |-> 0, res |-> NONE, rok |-> 0, item |-> 0,
        aret |-> "", bid |-> NONE, fe |-> {}, snapFree |-> {}, snapLive |-> {}, skip |-> FALSE,
+       seen |-> 0,  \* take: the slot version its compare-exchange found (ghost, Box.tla)
        v0 |-> 0,    \* deallocate: version of the head it loaded first (ghost)
        lag |-> 0]   \* allocate between head load and CAS: by how much retried pushes that landed meanwhile lagged behind (ghost)
 
